@@ -563,7 +563,8 @@ def inject_fault(rng, spec, q, kind):
     if kind == "too-many-index":
         return with_item(a + "[0][0][0][0][0]"[: 3 * rng.randint(2, 5)])
     if kind == "negative":
-        return with_item(a + rng.choice(["[-1]", "[-3:2]", "[0:-1]", "[0:-1:3]", "[-2:-1]"]))
+        # also on the sequence: a lazy row stream (itertools.islice) takes no negative index
+        return with_item(rng.choice([a, a, sn]) + rng.choice(["[-1]", "[-3:2]", "[0:-1]", "[0:-1:3]", "[-2:-1]"]))
     if kind == "inverted":
         return with_item(a + rng.choice(["[5:1]", "[3:2]", "[4:2:1]", "[1:0]"]))
     if kind == "out-of-range":
